@@ -84,6 +84,34 @@ def user_sync_scenarios(tier, seed, tail):
                 traces.append(cl.mon_trace(k, d.rec, cfg, True, False))
                 recs[k] = d.rec
                 k += 1
+    # end_sync (no argument, then a nick) at every micro-step of the start-up: the context is then often unstable
+    # (instances CHECKING / CHECKED, different views)
+    for arg in ([], ['n2']):
+        for micro in range(0, 60, 4 if tier == 'quick' else 1):
+            c = cl.make_cluster(cfg)
+            d = Driver(c)
+            try:
+                for n in c.nodes:
+                    d.boot(n)
+                done = 0
+                order = list(c.nodes)
+                while done < micro:
+                    pend = sorted(c.pending())
+                    if pend:
+                        d.proxy(*pend[0])
+                    else:
+                        d.tick(order[0])
+                        order = order[1:] + order[:1]
+                    done += 1
+                d.rpc('n1', 'end_sync', *arg)
+                if arg:
+                    d.rec.steps[-1]['arg'] = arg[0]
+                cl.fair_tail(d, cfg, tail)
+            finally:
+                c.close()
+            traces.append(cl.mon_trace(k, d.rec, cfg, True, False))
+            recs[k] = d.rec
+            k += 1
     out.append((cfg, traces, recs))
     return out
 
